@@ -28,7 +28,7 @@ def task(payload):
 
 
 def alphabets(fam, seed):
-    eu, pt, em = fam['enduse'], fam['plant'], fam['econ']
+    eu, pt, em = fam.get('enduse', 1), fam.get('plant', 2), fam.get('econ', 3)
     rnd = random.Random(f'{seed}/{F.fam_id(fam)}')
 
     def interior(lo, hi):
@@ -98,6 +98,15 @@ def plan(tier, seed):
                                     c = dict(st)
                                     c.update(ch)
                                     P.append({'fam': fam, 'changes': c})
+    # closed-loop (SBT) economics: its own Calculate, same levelized-cost definitions
+    for fam in F.sbt_grid(shapes=((6, 2, 1), (3, 1, 2)) if tier == 'quick' else ((6, 2, 1), (3, 1, 2), (30, 1, 1), (12, 4, 3))):
+        P.append({'fam': fam, 'changes': {}, 'base': True})
+        if fam['shape'] == [6, 2, 1]:
+            al = alphabets(fam, seed)
+            for ch in e1.deviations(al, 1):
+                P.append({'fam': fam, 'changes': ch})
+            for ch in STRUCT:
+                P.append({'fam': fam, 'changes': dict(ch)})
     return P
 
 
@@ -108,7 +117,8 @@ def run(tier, seed, budget=None):
         rule=('complete product economic model (3) x end-use/plant pair (32) x reservoir model (4) x shapes; on the '
               'deviation shapes every single-parameter deviation over the rate/cost alphabets (Min, Max, a mid value and two '
               'VERIF_SEED-chosen interior points per rate) plus structural deviations (zero add-on, add-on with gains, '
-              'redrilling, fixed totals, carbon pricing); thorough adds all pairs over the interaction set. '
+              'redrilling, fixed totals, carbon pricing); thorough adds all pairs over the interaction set; the closed-loop (SBT) family: '
+              '3 models x 6 pairs x 2 well geometries x shapes with the same single deviations. '
               'Non-trivial = accepted, levelized cost finite and non-zero and the energy series varies between years; '
               'distinct = digest of (model, end-use, plant class, reservoir class, lifetime, add-on, levelized costs)'),
         assumptions=['the branch table in vf/oracles/econ_ref.py (from the pinned code) is the documented definition',
